@@ -198,11 +198,11 @@ func c11registered(c *core.Ctx, i int, r *rand.Rand) {
 	h.k = uint64(1 + i%5)
 	h.budget = int64(c.Pick(60, 300))
 	h.forced.Store(0)
-	nrec := 20 + r.IntN(40)
+	nrec := 12 + r.IntN(20)
 	rb := avro.NewReadBuf(nil)
 	var keep []*avro.ResourceBank
 	for k := 0; k < nrec; k++ {
-		cnt := []int{1, 2, 3, 5, 8, 17, 64, 300}[r.IntN(8)]
+		cnt := []int{1, 2, 3, 5, 8, 17, 33, 100}[r.IntN(8)]
 		nums := make([]int64, 0, 5*cnt+4)
 		next := func() int64 {
 			n := int64(r.IntN(1 << 30))
